@@ -36,6 +36,8 @@ FIG-ALL - both figure-writing branches of FormattedRst.write (sequential
 loop, Pool.map) range over the full list built from self.plots, and a
 chunksize, if given, is provably >= 1. HEADER-DEPTH - every header is asked
 at the depth of the section being formatted (len(tree)), never deeper.
+NO-REMOVE - the writer (rst.py) never removes or moves entries of the report
+directory (section directories, figures and .static share one name space).
 Not decided: page content, validity of the toctree for Sphinx, figure
 rendering, depth limits.
 '''
@@ -58,6 +60,7 @@ def check(ctx):
     ctx.run(reportfs.check_page_suffix)
     ctx.run(extcmd.check_sanitize, scope=('report-root',), floor=1)
     ctx.run(extcmd.check_sanitizer_body)
+    ctx.run(reportfs.check_no_remove)
     ctx.run(patterns.check_patterns, ID)
 
 
@@ -68,6 +71,22 @@ def _variants(program):
             mod=RST):
         out.append(Variant(name, kind, edit_module(program, mod, editor),
                            expect, quick, note))
+
+    def stale_cleanup(tree):
+        fun = find_func(tree, 'FormattedRst._write_rec')
+        tree.body.insert(next(i for i, n in enumerate(tree.body)
+                              if isinstance(n, (ast.Import,
+                                                ast.ImportFrom))),
+                         parse_stmts('import shutil')[0])
+        return insert_stmt(
+            fun, lambda s: isinstance(s, ast.Assign) and txt(
+                s.targets[0]) == 'subtrees',
+            parse_stmts('if not subtrees and tree_path.is_dir():\n'
+                        '    shutil.rmtree(tree_path)'))
+    add('seed-stale-section-directories-removed-while-writing', 'mutant',
+        stale_cleanup, {'NO-REMOVE'},
+        note='seed C20-r4-1: a leaf section titled "figures" makes the '
+             'writer delete the directory of the plots')
 
     def lazy_validation(tree):
         fun = find_func(tree, 'FormattedRst.write')
